@@ -192,7 +192,13 @@ pub fn read_opts(skip: bool, hash: bool) -> slippi::de::Opts { slippi::de::Opts 
 /// the canonical `read` result line; the summary is computed inside the catch
 pub fn read_line(b: &[u8], skip: bool, hash: bool) -> (String, Option<Game>) {
     let o = read_opts(skip, hash);
-    let res = std::panic::catch_unwind(|| slippi::read(Cursor::new(b), Some(&o)));
+    // every third read happens with a logger installed at trace level (the library logs through the `log` facade)
+    static CALLS: std::sync::atomic::AtomicUsize = std::sync::atomic::AtomicUsize::new(0);
+    let lg = CALLS.fetch_add(1, std::sync::atomic::Ordering::Relaxed) % 3 == 2; crate::logging(lg);
+    let r = read_line_(b, &o, hash); crate::logging(false); r
+}
+fn read_line_(b: &[u8], o: &slippi::de::Opts, hash: bool) -> (String, Option<Game>) {
+    let res = std::panic::catch_unwind(|| slippi::read(Cursor::new(b), Some(o)));
     match res { Err(_) => ("panic".to_string(), None), Ok(Err(e)) => (format!("err {}", e), None), Ok(Ok(g)) => {
         match std::panic::catch_unwind(std::panic::AssertUnwindSafe(|| dump::summary(&g))) {
             Ok(mut s) => { if hash { s = s.replace("hashed=none", &format!("hashed=(some {})", b.len())); } (s, Some(g)) }
@@ -389,6 +395,19 @@ fn roll(rng: &mut Rng, ctx: &mut Ctx) {
             ctx.push(c);
         }
     }
+    // call sequences on one thread: a long game, a run of calls on short games (lengths around small counter widths), the long game again —
+    // the mask of a game does not depend on what was asked before
+    let long: Vec<i32> = (-123..300).chain(250..320).collect();
+    let reference = |ids: &[i32], first: bool| -> Vec<bool> { let mut seen = std::collections::HashSet::new(); let mut out = vec![false; ids.len()]; let order: Vec<usize> = if first { (0..ids.len()).collect() } else { (0..ids.len()).rev().collect() }; for i in order { out[i] = !seen.insert(ids[i]); } out };
+    for run in [0usize, 253, 254, 255, 256, 257, 511, 512] { for (mode, first) in [(Rollbacks::ExceptFirst, true), (Rollbacks::ExceptLast, false)] {
+        let mk = |ids: &[i32]| im::Frame { id: PrimitiveArray::from_vec(ids.to_vec()), ports: vec![], start: None, end: None, item_offset: None, item: None };
+        let res = std::panic::catch_unwind(|| { let lf = mk(&long); let a = lf.rollbacks(mode); for j in 0..run { let short: Vec<i32> = (-123..-120 + (j % 5) as i32).chain(-122..-121).collect(); let _ = mk(&short).rollbacks(mode); } let b = lf.rollbacks(mode); (a, b) });
+        let exp = reference(&long, first);
+        let mut c = Case::new(format!("rollseq {} {}", if first { "first" } else { "last" }, run), String::new()); c.tags = vec![format!("rollseq{}", run)];
+        match res { Err(_) => { c.impl_out = "panic".into(); c.fail("C15", "rollbacks() panicked in a call sequence"); }
+            Ok((a, b)) => { c.impl_out = format!("ok {} {}", a == exp, b == exp); if a != exp { c.fail("C15", "mask of the long game differs from the reference (first call)"); }
+                if b != exp { c.fail("C15", format!("mask of a game asked again after {} calls on other games differs from the reference ({} rows differ)", run, b.iter().zip(&exp).filter(|(x, y)| x != y).count())); } } }
+        ctx.push(c); } }
 }
 
 fn arrow(rng: &mut Rng, ctx: &mut Ctx) {
@@ -419,6 +438,12 @@ fn arrow(rng: &mut Rng, ctx: &mut Ctx) {
                 for i in 0..len { let t = fw.transpose_one(i, ver);
                     if let Err(e) = compare_view(&t, &fw, i) { win_err = Some(format!("window [{}..{}) of the exported array, row {}: {}", from, n, i, e)); break; }
                     if format!("{:?}", t) != format!("{:?}", f2.transpose_one(from + i, ver)) { win_err = Some(format!("window [{}..{}) of the exported array: row {} differs from row {} of the whole game", from, n, i, from + i)); break; } } }
+            // columns edited in memory (not produced by a reader): an item column with a validity bitmap that marks some entries as null, a start / end
+            // column likewise — the row view still shows, for every frame, exactly the entries its offsets delimit, with the values stored in the columns
+            if k % 4 == 2 { let mut fe = im::Frame::from_struct_array(sa.clone(), ver);
+                if let Some(it) = fe.item.as_mut() { let m = it.r#type.len(); if m > 0 { let bits: Vec<bool> = (0..m).map(|j| (j + k / 4) % 3 != 0).collect(); it.validity = Some(arrow2::bitmap::Bitmap::from(bits)); } }
+                for i in 0..n { let t = match std::panic::catch_unwind(std::panic::AssertUnwindSafe(|| fe.transpose_one(i, ver))) { Ok(t) => t, Err(_) => { win_err = Some(format!("row view of frame {} panics when the item column carries a validity bitmap", i)); break; } };
+                    if let Err(e) = compare_view(&t, &fe, i) { win_err = Some(format!("item column with a validity bitmap: {}", e)); break; } } }
             let mut g2 = Game { start, end, frames: f2, metadata: md, gecko_codes: gc, hash: None, quirks: q };
             let mut o = vec![]; let w = slippi::write(&mut o, &g2);
             // a frame table whose ports are listed in another order (built by a user, not by a reader): export / import keeps the order
@@ -544,7 +569,9 @@ fn start(rng: &mut Rng, ctx: &mut Ctx) {
             let dense = match rng.next() % 15 { 0 => Some(5usize), 1 => Some(3), 2 => Some(0), _ => None };
             let target = if dense.is_some() { width - (rng.next() % 2) as usize } else { (rng.next() as usize) % (width + 1) }; let mut j = 0;
             while j < target { let t = match dense { Some(5) => [&[0xb1u8][..], &[0xdf], &[0xa1], &[0xc0]][(rng.next() % 4) as usize], Some(d) => toks[d], None => toks[(rng.next() % 9) as usize] }; if j + t.len() > target { break; } b[off + j..off + j + t.len()].copy_from_slice(t); j += t.len(); }
-            if poison == Some(slot) && width >= 2 { let at = if j >= 2 { (rng.next() as usize) % (j - 1) } else { 0 }; let bad: &[u8] = [&[0x82u8, 0x20][..], &[0xff, 0x41], &[0x81, 0x7f]][(rng.next() % 3) as usize]; b[off + at..off + at + 2].copy_from_slice(bad); j = j.max(at + 2); }
+            if poison == Some(slot) && width >= 2 { let at = if j >= 2 { (rng.next() as usize) % (j - 1) } else { 0 }; let bad: &[u8] = [&[0x82u8, 0x20][..], &[0xff, 0x41], &[0x81, 0x7f]][(rng.next() % 3) as usize]; b[off + at..off + at + 2].copy_from_slice(bad); j = j.max(at + 2);
+                // the first bytes of the field look like a byte-order mark (UTF-16 LE / BE, UTF-8): invalid Shift-JIS like any other 0xFF / 0xFE / lone 0xEF
+                if rng.next() % 3 == 0 && width >= 5 { let bom: &[u8] = [&[0xffu8, 0xfe, 0x41, 0x30][..], &[0xfe, 0xff, 0x30, 0x41], &[0xef, 0xbb, 0xbf, 0x41]][(rng.next() % 3) as usize]; b[off..off + 4].copy_from_slice(bom); j = j.max(4); } }
             if j < width { b[off + j] = 0; for x in j + 1..width { b[off + x] = (rng.next() >> 8) as u8; } }
         };
         if b.len() >= 416 { for p in 0..4 { fill(&mut b, 352 + 16 * p, 16, p, rng); } }
